@@ -1,0 +1,135 @@
+//go:build verif && amd64
+// +build verif,amd64
+
+package verifhook
+
+import (
+	"unsafe"
+
+	"github.com/bytedance/sonic/internal/cpu"
+	decapi "github.com/bytedance/sonic/internal/decoder/api"
+	"github.com/bytedance/sonic/internal/decoder/jitdec"
+	"github.com/bytedance/sonic/internal/decoder/optdec"
+	"github.com/bytedance/sonic/internal/encoder"
+	"github.com/bytedance/sonic/internal/encoder/vars"
+	"github.com/bytedance/sonic/internal/envs"
+	"github.com/bytedance/sonic/internal/native"
+	"github.com/bytedance/sonic/internal/native/avx2"
+	"github.com/bytedance/sonic/internal/native/sse"
+	"github.com/bytedance/sonic/internal/native/types"
+)
+
+// JsonState and StateMachine are the out-parameters of the native routines.
+type (
+	JsonState    = types.JsonState
+	StateMachine = types.StateMachine
+)
+
+func NewStateMachine() *StateMachine   { return types.NewStateMachine() }
+func FreeStateMachine(m *StateMachine) { types.FreeStateMachine(m) }
+
+// Natives is the table of Go-callable entry points of one SIMD variant.
+type Natives struct {
+	Name             string
+	Quote            func(sp unsafe.Pointer, nb int, dp unsafe.Pointer, dn unsafe.Pointer, flags uint64) int
+	Unquote          func(sp unsafe.Pointer, nb int, dp unsafe.Pointer, ep unsafe.Pointer, flags uint64) int
+	HTMLEscape       func(sp unsafe.Pointer, nb int, dp unsafe.Pointer, dn unsafe.Pointer) int
+	Value            func(s unsafe.Pointer, n int, p int, v unsafe.Pointer, flags uint64) int
+	SkipOne          func(s unsafe.Pointer, p unsafe.Pointer, m unsafe.Pointer, flags uint64) int
+	SkipOneFast      func(s unsafe.Pointer, p unsafe.Pointer) int
+	GetByPath        func(s unsafe.Pointer, p unsafe.Pointer, path unsafe.Pointer, m unsafe.Pointer) int
+	ValidateOne      func(s unsafe.Pointer, p unsafe.Pointer, m unsafe.Pointer, flags uint64) int
+	ValidateUTF8     func(s unsafe.Pointer, p unsafe.Pointer, m unsafe.Pointer) int
+	ValidateUTF8Fast func(s unsafe.Pointer) int
+	I64toa           func(out unsafe.Pointer, val int64) int
+	U64toa           func(out unsafe.Pointer, val uint64) int
+	F64toa           func(out unsafe.Pointer, val float64) int
+	F32toa           func(out unsafe.Pointer, val float32) int
+	Lspace           func(sp unsafe.Pointer, nb int, off int) int
+	SkipNumber       func(s unsafe.Pointer, p unsafe.Pointer) int
+	SkipArray        func(s unsafe.Pointer, p unsafe.Pointer, m unsafe.Pointer, flags uint64) int
+	SkipObject       func(s unsafe.Pointer, p unsafe.Pointer, m unsafe.Pointer, flags uint64) int
+	Vnumber          func(s unsafe.Pointer, p unsafe.Pointer, v unsafe.Pointer)
+	Vsigned          func(s unsafe.Pointer, p unsafe.Pointer, v unsafe.Pointer)
+	Vunsigned        func(s unsafe.Pointer, p unsafe.Pointer, v unsafe.Pointer)
+	Vstring          func(s unsafe.Pointer, p unsafe.Pointer, v unsafe.Pointer, flags uint64)
+}
+
+// HasAVX2 reports whether the CPU (and SONIC_MODE) selected the AVX2 routines.
+func HasAVX2() bool { return cpu.HasAVX2 }
+
+// LoadNatives loads both SIMD variants side by side and returns their tables.
+// The process-wide dispatch table is left as it was chosen at start-up.
+func LoadNatives() (a, s Natives) {
+	avx2.Use()
+	sse.Use()
+	a = Natives{
+		Name: "avx2", Quote: avx2.F_quote, Unquote: avx2.F_unquote, HTMLEscape: avx2.F_html_escape,
+		Value: avx2.F_value, SkipOne: avx2.F_skip_one, SkipOneFast: avx2.F_skip_one_fast,
+		GetByPath: avx2.F_get_by_path, ValidateOne: avx2.F_validate_one,
+		ValidateUTF8: avx2.F_validate_utf8, ValidateUTF8Fast: avx2.F_validate_utf8_fast,
+		I64toa: avx2.F_i64toa, U64toa: avx2.F_u64toa, F64toa: avx2.F_f64toa, F32toa: avx2.F_f32toa,
+		Lspace: avx2.F_lspace, SkipNumber: avx2.F_skip_number, SkipArray: avx2.F_skip_array,
+		SkipObject: avx2.F_skip_object, Vnumber: avx2.F_vnumber, Vsigned: avx2.F_vsigned,
+		Vunsigned: avx2.F_vunsigned, Vstring: avx2.F_vstring,
+	}
+	s = Natives{
+		Name: "sse", Quote: sse.F_quote, Unquote: sse.F_unquote, HTMLEscape: sse.F_html_escape,
+		Value: sse.F_value, SkipOne: sse.F_skip_one, SkipOneFast: sse.F_skip_one_fast,
+		GetByPath: sse.F_get_by_path, ValidateOne: sse.F_validate_one,
+		ValidateUTF8: sse.F_validate_utf8, ValidateUTF8Fast: sse.F_validate_utf8_fast,
+		I64toa: sse.F_i64toa, U64toa: sse.F_u64toa, F64toa: sse.F_f64toa, F32toa: sse.F_f32toa,
+		Lspace: sse.F_lspace, SkipNumber: sse.F_skip_number, SkipArray: sse.F_skip_array,
+		SkipObject: sse.F_skip_object, Vnumber: sse.F_vnumber, Vsigned: sse.F_vsigned,
+		Vunsigned: sse.F_vunsigned, Vstring: sse.F_vstring,
+	}
+	if cpu.HasAVX2 {
+		native.VerifUseAVX2()
+	} else {
+		native.VerifUseSSE()
+	}
+	return
+}
+
+// SetDecoder selects jitdec (opt=false) or optdec (opt=true, with or without
+// the fast-map path) for every later Unmarshal in this process.
+func SetDecoder(opt, fastmap bool) {
+	decapi.VerifSetImpl(opt)
+	if opt {
+		envs.EnableOptDec()
+	} else {
+		envs.DisableOptDec()
+	}
+	if fastmap {
+		envs.EnableFastMap()
+	} else {
+		envs.DisableFastMap()
+	}
+}
+
+// SetEncoderVM selects the interpreting (true) or JIT (false) encoder back end
+// and drops every cached encoder program (programs of the two back ends are
+// not interchangeable).
+func SetEncoderVM(vm bool) {
+	if vm {
+		encoder.ForceUseVM()
+	} else {
+		encoder.ForceUseJit()
+	}
+	vars.ResetProgramCache()
+}
+
+// EncoderIsVM reports the active encoder back end.
+func EncoderIsVM() bool { return vars.UseVM }
+
+// ResetCodecCaches drops every cached encoder and decoder program.
+func ResetCodecCaches() {
+	vars.ResetProgramCache()
+	jitdec.VerifResetCache()
+	optdec.VerifResetCache()
+}
+
+// CacheLen reports the number of cached programs (encoder, jitdec, optdec).
+func CacheLen() (enc, jit, opt int) {
+	return vars.VerifCacheLen(), jitdec.VerifCacheLen(), optdec.VerifCacheLen()
+}
